@@ -107,6 +107,7 @@ def stylesheetOptions (u : RawConfig) (g : GlobalConfig) : CA.SOpts :=
     skipUnmatched := getB o "stylesheet.skipUnmatched"
     format := getB o "output.format"
     newline := getS o "output.newline"
+    baseIndent := getS o "output.baseIndent"
     indent := getS o "output.indent"
     scope := u.contextName }
 
